@@ -4,9 +4,9 @@
    reset — the message was handed to the application (FromApp for k) in that very step.
    Model level: rs_405 (resendState.FixMsgIn: the drain loop hands every kept message that is next to inSession.FixMsgIn;
    the expected number advances one at a time except for SequenceReset jumps — TjProofs.v).
-   Trace level: the scan's record `kept` of what is kept under each stash key agrees with the model's stash (invariant KA)
-   provided every directly processed message is well addressed (hdr_ok); without that proviso the scan's record can be wrong
-   and clause 405 fires on a model trace (c04_405_misaddressed_refuted). *)
+   Trace level (every configuration, every event list): the scan's record `kept` of what is kept under each stash key agrees
+   with the model's stash (invariant KA: the scan records a message only when it passes the header checks, and then it is the
+   one the engine keeps; otherwise it forgets what sits under that number). *)
 From Coq Require Import String.
 From Coq Require Import ZArith List Bool Lia.
 From QF Require Import Base.Bytes Session.Types Session.Model Session.Spec Session.C01Proofs Session.LocalProofs
@@ -470,9 +470,6 @@ Qed.
 Definition KA (kept : list (Z * minput)) (st : sstate) : Prop :=
   forall n y x, kept_lookup n kept = Some y -> In (n, x) (stash_of_st st) -> x = y.
 
-Definition c04_addressed (c : cfg) (e : event) : Prop :=
-  match e with EIncoming m => hdr_ok c m | _ => True end.
-
 Lemma stash_keys_shape st : stash_keys (shape_of st) = keys (stash_of_st st).
 Proof.
   unfold stash_keys, stash_of_st. rewrite shape_unwrap.
@@ -527,23 +524,25 @@ Proof.
   apply existsb_eqb_in in Hin. congruence.
 Qed.
 
-Definition kept_next (e : event) (prev o : obs) (kept : list (Z * minput)) : list (Z * minput) :=
+Definition kept_next (c : cfg) (e : event) (prev o : obs) (kept : list (Z * minput)) : list (Z * minput) :=
   match e with
   | EIncoming m => match mi_seq m with
                    | FVal n => let kept0 := filter (fun e0 => existsb (Z.eqb (fst e0)) (stash_keys (ob_st o))) kept in
                                if existsb (Z.eqb n) (stash_keys (ob_st o)) && (ob_tgt prev <? n)
                                   && (gated_type (mi_type m) || (beq_bytes (mi_type m) T_SEQRESET && is_gapfill m))
-                               then (n, m) :: kept0 else kept0
+                               then (if msg_passes_header c (ob_tgt prev) m then (n, m) :: kept0
+                                     else filter (fun e0 => negb (fst e0 =? n)) kept0)
+                               else kept0
                    | _ => filter (fun e0 => existsb (Z.eqb (fst e0)) (stash_keys (ob_st o))) kept
                    end
   | EDeliver => filter (fun e0 => negb (existsb (Z.eqb (fst e0)) (stash_keys (ob_st o)))) kept
   | _ => filter (fun e0 => existsb (Z.eqb (fst e0)) (stash_keys (ob_st o))) kept
   end.
 
-Lemma ka_step : forall s e kept, RI s -> LB s -> KA kept (s_st s) -> c04_addressed (s_cfg s) e ->
-  KA (kept_next e (obs_of s) (obs_of (step s e)) kept) (s_st (step s e)).
+Lemma ka_step : forall s e kept, RI s -> LB s -> KA kept (s_st s) ->
+  KA (kept_next (s_cfg s) e (obs_of s) (obs_of (step s e)) kept) (s_st (step s e)).
 Proof.
-  intros s e kept Hri Hlb Hka Had. unfold kept_next.
+  intros s e kept Hri Hlb Hka. unfold kept_next.
   change (ob_st (obs_of (step s e))) with (shape_of (s_st (step s e))). rewrite stash_keys_shape.
   change (ob_tgt (obs_of s)) with (s_tgt s).
   assert (Hother : match e with EIncoming _ | EDeliver => False | _ => True end ->
@@ -553,7 +552,6 @@ Proof.
   destruct e; try (apply Hother; exact I).
   - apply ka_filter_out.
   - (* EIncoming m *)
-    cbn [c04_addressed] in Had.
     assert (Hst : step s (EIncoming m) = incoming (clear_logs s) (Some m)) by reflexivity.
     destruct (incoming_stash (clear_logs s) m Hri Hlb) as [P1 P2]. rewrite <- Hst in P1, P2.
     change (s_st (clear_logs s)) with (s_st s) in P1.
@@ -570,10 +568,18 @@ Proof.
       destruct (existsb (Z.eqb n0) (keys (stash_of_st st')) && (s_tgt s <? n0)
                 && (gated_type (mi_type m) || (beq_bytes (mi_type m) T_SEQRESET && is_gapfill m))) eqn:Ec.
       * apply andb_true_iff in Ec as [Ec Hty]. apply andb_true_iff in Ec as [_ Hlt]. apply Z.ltb_lt in Hlt.
-        intros n y x Hl Hi. rewrite kept_lookup_cons in Hl.
-        destruct (Z.eqb_spec n0 n) as [<-|Hn].
-        -- inversion Hl; subst y. apply (P2 n0 Had eq_refl Hlt Hty x Hi).
-        -- destruct (P1 n x Hi) as [Ho|(_ & Hs & _)]; [exact (Hold n y x Hl Ho) | congruence].
+        destruct (msg_passes_header (s_cfg s) (s_tgt s) m) eqn:Hp.
+        -- (* recorded: the message passes the header checks, so it is the one the engine keeps *)
+           pose proof (passes_hdr_ok _ _ _ Hp) as Had.
+           intros n y x Hl Hi. rewrite kept_lookup_cons in Hl.
+           destruct (Z.eqb_spec n0 n) as [<-|Hn].
+           ++ inversion Hl; subst y. apply (P2 n0 Had eq_refl Hlt Hty x Hi).
+           ++ destruct (P1 n x Hi) as [Ho|(_ & Hs & _)]; [exact (Hold n y x Hl Ho) | congruence].
+        -- (* not recorded: the record for n0 is dropped *)
+           intros n y x Hl Hi.
+           destruct (kept_lookup_filter (fun z => negb (z =? n0)) _ _ _ Hl) as [Hl' Hne].
+           apply negb_true_iff in Hne. apply Z.eqb_neq in Hne.
+           destruct (P1 n x Hi) as [Ho|(_ & Hs & _)]; [exact (Hold n y x Hl' Ho) | congruence].
       * intros n y x Hl Hi. destruct (P1 n x Hi) as [Ho|(Hx & Hs & Hlt & Hty)]; [exact (Hold n y x Hl Ho)|].
         exfalso. assert (Hnn : n0 = n) by congruence. subst n0.
         assert (Hin : In n (keys (stash_of_st st'))) by (apply keys_in; exists x; exact Hi).
@@ -697,11 +703,9 @@ Qed.
 
 (* ---------- trace level ---------- *)
 Lemma c04_scan_405 : forall es s i kept, Boundary s -> RI s -> LB s -> KA kept (s_st s) ->
-  Forall (c04_addressed (s_cfg s)) es ->
   free_of [405] (c04_scan (s_cfg s) i kept (obs_of s) (combine es (map obs_of (run_trace es s)))) = true.
 Proof.
-  induction es as [|e r IH]; intros s i kept Hb Hri Hlb Hka Had; cbn [run_trace map combine]; [reflexivity|].
-  inversion Had as [|? ? Ha Har]; subst.
+  induction es as [|e r IH]; intros s i kept Hb Hri Hlb Hka; cbn [run_trace map combine]; [reflexivity|].
   cbn [c04_scan]. rewrite !free_of_app. repeat (apply andb_true_iff; split).
   - free_rest.
   - free_rest.
@@ -710,20 +714,19 @@ Proof.
   - apply (clause_405 i s e kept); assumption.
   - free_rest.
   - match goal with |- free_of _ (c04_scan _ _ ?kn _ _) = true =>
-      change kn with (kept_next e (obs_of s) (obs_of (step s e)) kept) end.
-    rewrite <- (step_cfg (s_cfg s) s e eq_refl).
-    apply IH; [apply step_boundary | apply step_ri | apply step_lb | apply ka_step | rewrite (step_cfg (s_cfg s) s e eq_refl)]; assumption.
+      change kn with (kept_next (s_cfg s) e (obs_of s) (obs_of (step s e)) kept) end.
+    rewrite <- (step_cfg (s_cfg s) s e eq_refl) at 1.
+    apply IH; [apply step_boundary | apply step_ri | apply step_lb | apply ka_step]; assumption.
 Qed.
 
 Lemma ka_nil st : KA [] st.
 Proof. intros n y x H. discriminate H. Qed.
 
 Theorem c04_no_kept_message_dropped : forall c es,
-  Forall (c04_addressed c) es ->
   free_of [405] (c04_check c (combine es (map obs_of (run_trace es (init_sess c))))) = true.
 Proof.
-  intros c es Had. unfold c04_check.
-  apply (c04_scan_405 es (init_sess c)); [apply init_boundary | apply init_ri | apply init_lb | apply ka_nil | exact Had].
+  intros c es. unfold c04_check.
+  apply (c04_scan_405 es (init_sess c)); [apply init_boundary | apply init_ri | apply init_lb | apply ka_nil].
 Qed.
 
 (* ---------- concrete instances ---------- *)
@@ -735,19 +738,17 @@ Proof. unfold hdr_ok. repeat split; try reflexivity; intros x Hx; inversion Hx; 
 Definition c04x_kept_trace : list event :=
   [EConnect; EIncoming (c04x_msg T_LOGON 1); EIncoming (c04x_msg (B "D") 4);
    EIncoming (c04x_msg T_HEARTBEAT 2); EIncoming (c04x_msg T_HEARTBEAT 3)].
-Lemma c04x_kept_trace_addressed : Forall (c04_addressed (c04x_cfg 0)) c04x_kept_trace.
-Proof. unfold c04x_kept_trace. repeat (first [apply Forall_cons | apply Forall_nil]); try exact I; apply c04x_msg_addressed. Qed.
 Lemma c04x_kept_trace_delivers :
   map (fun o => (ob_st (snd o), ob_tgt (snd o), delivered 4 (ob_cbs (snd o)))) (c04x_run (c04x_cfg 0) c04x_kept_trace)
   = [(ShLogon, 1, false); (ShInSession, 2, false); (ShResend true [4] 0 3, 2, false); (ShResend true [4] 0 3, 3, false);
      (ShInSession, 5, true)].
 Proof. vm_compute. reflexivity. Qed.
 
-(* REFUTED without the hypothesis.  A gap-fill SequenceReset 5 -> 12 is kept through the buffered channel (the scan does not
-   know what sits under key 5), application message 10 is kept, then a message numbered 5 with no SenderCompID arrives: it is
-   rejected, not kept, but the scan records it under key 5.  When the kept SequenceReset is delivered the expected number jumps
-   from 5 to 12 over the kept message 10, which the scan cannot excuse: clause 405 fires at event 8.  (No message is lost by
-   the engine here that the peer did not itself skip: the failure is one of the predicate's bookkeeping.) *)
+(* Regression for the scan's bookkeeping.  A gap-fill SequenceReset 5 -> 12 is kept through the buffered channel (the scan
+   does not know what sits under key 5), application message 10 is kept, then a message numbered 5 with no SenderCompID
+   arrives: it is rejected, not kept.  The scan used to record it under key 5 and then reported 405 at event 8 when the kept
+   SequenceReset moved the expected number from 5 to 12 over the kept message 10.  Recording only messages that pass the
+   header checks (and dropping the record for the number otherwise) the scan reports nothing. *)
 Definition c04x_seqreset (n q : Z) : minput :=
   {| mi_type := T_SEQRESET; mi_begin := B "FIX.4.2"; mi_sender := Some (B "T"); mi_target := Some (B "S"); mi_seq := FVal n;
      mi_possdup := FVal true; mi_stime := FVal 0; mi_otime := FAbsent; mi_gapfill := FVal true; mi_newseq := FVal q;
@@ -762,6 +763,391 @@ Definition c04x_misaddressed_trace : list event :=
   [EConnect; EIncoming (c04x_msg T_LOGON 1); EIncoming (c04x_msg (B "D") 10);
    EArrive (c04x_seqreset 5 12); EDeliver; EIncoming (c04x_msg (B "D") 10); EIncoming (c04x_no_sender 5);
    EIncoming (c04x_msg T_HEARTBEAT 3); EIncoming (c04x_msg T_HEARTBEAT 4)].
-Lemma c04_405_misaddressed_refuted :
-  exists c es, c04_check c (combine es (map obs_of (run_trace es (init_sess c)))) = [(8%nat, 405)].
-Proof. exists (c04x_cfg 0), c04x_misaddressed_trace. vm_compute. reflexivity. Qed.
+Lemma c04x_misaddressed_trace_ok :
+  c04_check (c04x_cfg 0) (c04x_run (c04x_cfg 0) c04x_misaddressed_trace) = []
+  /\ map (fun o => (ob_st (snd o), ob_tgt (snd o))) (c04x_run (c04x_cfg 0) c04x_misaddressed_trace)
+     = [(ShLogon, 1); (ShInSession, 2); (ShResend true [10] 0 9, 2); (ShResend true [10] 0 9, 2); (ShResend true [5; 10] 0 9, 2);
+        (ShResend true [10; 5] 0 9, 2); (ShResend true [10; 5] 0 9, 3); (ShResend true [10; 5] 0 9, 4); (ShInSession, 12)].
+Proof. split; vm_compute; reflexivity. Qed.
+
+(* ============================================================================================================== *)
+(* Clause 407: while recovering, an early sequence-gated message that passes the header checks is kept under its number;
+   nothing is requested, the expected number stays.
+   Reachable-state invariant CE: in the resend state the stash map exists, and — for a non-negative ResendRequestChunkSize —
+   the current chunk end is 0 or not below the expected number (every exit of resendState.FixMsgIn establishes it; store
+   resets only lower the expected number). *)
+Definition CEst (c : cfg) (tgt : Z) (st : sstate) : Prop :=
+  match unwrap_pending st with
+  | SResend stash cur _ => stash <> None /\ (0 <= c_chunk c -> cur = 0 \/ tgt <= cur)
+  | _ => True
+  end.
+Definition CE (s : sess) : Prop := CEst (s_cfg s) (s_tgt s) (s_st s).
+
+Lemma CEst_not_resend c tgt st : not_resend_st st -> CEst c tgt st.
+Proof. intros H. unfold CEst. destruct (unwrap_pending st) eqn:E; try exact I. exfalso. eapply H. exact E. Qed.
+
+Lemma srr_ce s b e s1 st : send_resend_request s b e = (s1, st) ->
+  s_tgt s1 = s_tgt s /\ exists c, st = SResend (Some []) c e /\ (0 <= c_chunk (s_cfg s) -> c = 0 \/ b <= c).
+Proof.
+  intros H. split; [exact (proj1 (send_resend_request_shape _ _ _ _ _ H))|].
+  unfold send_resend_request in H. cbv zeta in H.
+  destruct (Z.eqb_spec (c_chunk (s_cfg s)) 0) as [Hc|Hc].
+  - rewrite Z.ltb_irrefl in H. inversion H; subst. eexists; split; [reflexivity | intros _; left; reflexivity].
+  - match type of H with context [if ?x <? e then _ else _] => destruct (x <? e) end;
+      inversion H; subst; eexists; split; try reflexivity; intros Hn; [right; lia | left; reflexivity].
+Qed.
+
+Lemma too_high_ce : forall s m recv s1 next,
+  CE s -> process_reject s m (RTooHigh recv (s_tgt s)) = (s1, next) -> CEst (s_cfg s) (s_tgt s1) next.
+Proof.
+  intros s m recv s1 next Hce E. cbn [process_reject] in E. unfold CE, CEst in Hce.
+  destruct (unwrap_pending (s_st s)) as [| | | | | st c e | j] eqn:Eu.
+  6: { inversion E; subst. unfold CEst. cbn [unwrap_pending]. split; [discriminate | exact (proj2 Hce)]. }
+  all: unfold do_target_too_high in E;
+    destruct (send_resend_request s (s_tgt s) (recv - 1)) as [x st0] eqn:Er;
+    destruct (srr_ce _ _ _ _ _ Er) as (Hx & c0 & -> & Hc);
+    inversion E; subst; unfold CEst; cbn [unwrap_pending]; rewrite Hx; (split; [discriminate | exact Hc]).
+Qed.
+
+Lemma in_session_ce : forall s m s1 next,
+  CE s -> in_session_fix_msg_in s m = (s1, next) -> CEst (s_cfg s) (s_tgt s1) next.
+Proof.
+  intros s m s1 next Hce E. destruct (in_session_char s m s1 next E) as [H|(recv & Hs & Hlt & Ep)].
+  - apply CEst_not_resend; exact H.
+  - eapply too_high_ce; eassumption.
+Qed.
+
+Lemma resend_state_ce : forall s stash ce re m s' next',
+  unwrap_pending (s_st s) = SResend stash ce re -> RI s -> LB s -> CE s ->
+  resend_state_fix_msg_in s stash ce re m = (s', next') -> CEst (s_cfg s) (s_tgt s') next'.
+Proof.
+  intros s stash ce re m s' next' Hu Hri Hlb Hce E. unfold resend_state_fix_msg_in in E.
+  destruct (in_session_fix_msg_in s m) as [s1 next] eqn:Ei.
+  pose proof (in_session_ce s m s1 next Hce Ei) as R1.
+  pose proof (in_session_ri s m s1 next Hri Hlb Ei) as Q1.
+  pose proof (fr_in_session_fix_msg_in s s m s1 next Ei (same_refl s)) as Hs1.
+  destruct (negb (is_logged_on next)); [inversion E; subst; exact R1|].
+  unfold RI, RIst in Hri. rewrite Hu in Hri. destruct Hri as (_ & _ & Hst).
+  unfold CE, CEst in Hce. rewrite Hu in Hce. destruct Hce as [Hsome _].
+  destruct stash as [l0|]; [clear Hsome | exfalso; apply Hsome; reflexivity].
+  assert (Hst' : exists l, shared_stash (Some l0) next = Some l /\ wk l).
+  { cbn [shared_stash]. destruct next as [| | | | | [l2|] c2 e2 | j]; try (exists l0; split; [reflexivity | exact (proj2 Hst)]).
+    exists l2. split; [reflexivity|]. unfold RIst in Q1. cbn [unwrap_pending] in Q1. exact (proj2 (proj2 (proj2 Q1))). }
+  destruct Hst' as (l & Hsh & Hwl). rewrite Hsh in E.
+  destruct (resend_drain (S (length l)) s1 l next) as [[[s2 l'] next2] still] eqn:Ed.
+  destruct (resend_drain_spec _ _ _ _ _ _ _ _ Hwl (Nat.lt_succ_diag_r _) Ed) as (_ & A2 & A3).
+  pose proof (fr_resend_drain s _ _ _ _ _ _ _ _ Ed Hs1) as Hs2.
+  destruct still; cbn [negb] in E; [|inversion E; subst; apply CEst_not_resend, A3; reflexivity].
+  destruct (A2 eq_refl) as [_ B2].
+  assert (Hreq : forall s3 st3, send_resend_request s2 (s_tgt s2) re = (s3, st3) ->
+            CEst (s_cfg s) (s_tgt (fst (match st3 with SResend _ c e => (s3, SResend (Some l') c e) | other => (s3, other) end)))
+                 (snd (match st3 with SResend _ c e => (s3, SResend (Some l') c e) | other => (s3, other) end))).
+  { intros s3 st3 Er. destruct (srr_ce _ _ _ _ _ Er) as (Hx & c3 & -> & Hc3). cbn [fst snd].
+    unfold CEst. cbn [unwrap_pending]. rewrite Hx. split; [discriminate|]. rewrite <- (same_cfg _ _ Hs2). exact Hc3. }
+  destruct (negb (ce =? 0) && (ce <? s_tgt s2) && (s_tgt s2 <=? re)) eqn:Ec.
+  { destruct (send_resend_request s2 (s_tgt s2) re) as [s3 st3] eqn:Er.
+    specialize (Hreq s3 st3 eq_refl). destruct st3; inversion E; subst; exact Hreq. }
+  assert (Hfinal : forall g : bool,
+    (if g && negb (ce =? 0) && (ce =? s_tgt s2)
+     then match send_resend_request s2 (s_tgt s2) re with (s3, SResend _ c e) => (s3, SResend (Some l') c e) | (s3, other) => (s3, other) end
+     else if s_tgt s2 <=? re then (s2, SResend (Some l') ce re) else (s2, next2)) = (s', next') -> CEst (s_cfg s) (s_tgt s') next').
+  { intros g Eg. destruct (g && negb (ce =? 0) && (ce =? s_tgt s2)).
+    - destruct (send_resend_request s2 (s_tgt s2) re) as [s3 st3] eqn:Er.
+      specialize (Hreq s3 st3 eq_refl). destruct st3; inversion Eg; subst; exact Hreq.
+    - destruct (Z.leb_spec (s_tgt s2) re) as [Hle|Hgt]; inversion Eg; subst.
+      + unfold CEst. cbn [unwrap_pending]. split; [discriminate|]. intros _.
+        destruct (Z.eqb_spec ce 0) as [Hz|Hz]; [left; exact Hz|]. right.
+        destruct (Z.ltb_spec ce (s_tgt s')) as [Hl|Hl]; [|lia]. cbn [negb andb] in Ec. discriminate Ec.
+      + destruct B2 as [[-> ->]|B2]; [exact R1 | apply CEst_not_resend; exact B2]. }
+  destruct (mi_gapfill m) as [| |g]; [apply (Hfinal false); exact E | inversion E; subst; apply CEst_not_resend, ns_SLatent | ].
+  apply (Hfinal (match FVal g with FVal true => true | _ => false end)). exact E.
+Qed.
+
+Lemma handle_logon_too_high_exp : forall s m s1 recv exp,
+  handle_logon s m = (s1, Some (RTooHigh recv exp)) -> exp = s_tgt s1.
+Proof.
+  intros s m s1 recv exp E. unfold handle_logon in E.
+  destruct (if c_begin (s_cfg s) =? 5 then match mi_applver m with None => Some (R_cond_missing 1137) | Some _ => None end else None) as [r0|] eqn:E0.
+  { destruct (c_begin (s_cfg s) =? 5); [|discriminate]. destruct (mi_applver m); inversion E0; subst. inversion E. }
+  destruct (verify_msg_against_app_impl s m) as [x [r|]] eqn:Ea.
+  { unfold verify_msg_against_app_impl in Ea. destruct (mi_valid m); cbn [rej_of_verdict] in Ea;
+      try (inversion Ea; subst; inversion E; fail).
+    destruct (mi_app m); cbn [rej_of_verdict] in Ea; inversion Ea; subst; inversion E. }
+  cbv zeta in E.
+  match type of E with context [verify_select ?a m false true false] => destruct (verify_select a m false true false) as [y [r|]] eqn:Ev end.
+  { inversion E; subst. pose proof (verify_select_too_high_hi _ _ _ _ _ _ _ _ Ev). discriminate. }
+  match type of E with context [check_target_too_high ?a m] => destruct (check_target_too_high a m) as [r|] eqn:Eh; [|inversion E];
+    set (s5 := a) in * end.
+  inversion E; subst. unfold check_target_too_high in Eh.
+  destruct (mi_seq m) as [| |n]; try (inversion Eh; fail).
+  destruct (Z.ltb_spec (s_tgt s5) n); inversion Eh; subst. reflexivity.
+Qed.
+
+Lemma state_fix_ce : forall st s m s1 next,
+  unwrap_pending st = unwrap_pending (s_st s) -> RI s -> LB s -> CE s ->
+  state_fix_msg_in st s m = (s1, next) -> CEst (s_cfg s) (s_tgt s1) next.
+Proof.
+  induction st as [| | | | | stash c e | j IH]; intros s m s1 next Hu Hri Hlb Hce E; cbn [state_fix_msg_in] in E.
+  - inversion E; subst. apply CEst_not_resend, ns_SLatent.
+  - inversion E; subst. apply CEst_not_resend. intros a b c H; discriminate H.
+  - unfold logon_state_fix_msg_in in E.
+    destruct (negb (beq_bytes (mi_type m) T_LOGON)); [inversion E; subst; apply CEst_not_resend, ns_SLatent|].
+    destruct (handle_logon s m) as [x [r|]] eqn:Eh; [|inversion E; subst; apply CEst_not_resend, ns_SInSession].
+    pose proof (fr_handle_logon s s m x _ Eh (same_refl s)) as Hs.
+    destruct r as [recv ex| | | |]; try (unfold shutdown_with_reason in E; inversion E; subst; apply CEst_not_resend, ns_SLatent).
+    pose proof (handle_logon_too_high_exp _ _ _ _ _ Eh) as ->.
+    unfold do_target_too_high in E. destruct (srr_ce _ _ _ _ _ E) as (Hx & c0 & -> & Hc).
+    unfold CEst. cbn [unwrap_pending]. rewrite Hx. split; [discriminate|]. rewrite <- (same_cfg _ _ Hs). exact Hc.
+  - unfold logout_state_fix_msg_in in E. destruct (in_session_fix_msg_in s m) as [x nx].
+    destruct nx; inversion E; subst; apply CEst_not_resend; first [apply ns_SLatent | apply ns_SLogout].
+  - apply (in_session_ce s m s1); assumption.
+  - cbn [unwrap_pending] in Hu. apply (resend_state_ce s stash c e m s1); [symmetry; exact Hu | assumption..].
+  - apply (IH s m s1); [exact Hu | assumption..].
+Qed.
+
+Lemma set_state_with_ce : forall dr s next c0, s_cfg s = c0 -> CEst c0 (s_tgt s) next ->
+  CEst c0 (s_tgt (set_state_with dr s next)) (s_st (set_state_with dr s next)).
+Proof.
+  intros dr s next c0 Hc H. rewrite s_st_set_state_with.
+  destruct (is_connected next) eqn:Ec.
+  - unfold set_state_with. rewrite Ec. exact H.
+  - apply CEst_not_resend, not_connected_not_resend, Ec.
+Qed.
+
+Lemma incoming_with_ce : forall dr s m, RI s -> LB s -> CE s ->
+  CEst (s_cfg s) (s_tgt (incoming_with dr s m)) (s_st (incoming_with dr s m)).
+Proof.
+  intros dr s m Hri Hlb Hce. unfold incoming_with.
+  destruct (negb (is_connected (s_st s))); [exact Hce|]. destruct m as [mm|]; [|exact Hce].
+  destruct (state_fix_msg_in (s_st s) s mm) as [s1 next] eqn:E.
+  apply set_state_with_ce; [exact (same_cfg _ _ (fr_state_fix_msg_in s _ _ _ _ _ E (same_refl s)))|].
+  eapply state_fix_ce; [reflexivity | exact Hri | exact Hlb | exact Hce | exact E].
+Qed.
+
+Lemma CEst_moved : forall c tgt tgt' st, CEst c tgt st -> 1 <= tgt -> (tgt' = tgt \/ tgt' = 1) -> CEst c tgt' st.
+Proof.
+  intros c tgt tgt' st H Hl Ht. unfold CEst in *. destruct (unwrap_pending st); try exact I.
+  destruct H as [H1 H2]. split; [exact H1|]. intros Hn. destruct (H2 Hn) as [Hz|Hz]; [left; exact Hz | right; lia].
+Qed.
+
+Lemma state_timeout_ce : forall s t s1 next, CE s -> state_timeout (s_st s) s t = (s1, next) -> CEst (s_cfg s) (s_tgt s1) next.
+Proof.
+  intros s t s1 next Hce E. unfold CE in Hce. unfold state_timeout in E.
+  assert (Hsend : forall ty body, beq_bytes ty T_LOGON = false -> s_tgt (send s ty body) = s_tgt s).
+  { intros ty body Hn. apply (send_keeps_tgt s ty [] body None Hn). }
+  destruct (s_st s) as [| | | | | a b d | j] eqn:Es.
+  - inversion E; subst. apply CEst_not_resend, ns_SLatent.
+  - inversion E; subst. apply CEst_not_resend. intros x y z H; discriminate H.
+  - destruct t; inversion E; subst; apply CEst_not_resend; first [apply ns_SLatent | apply ns_SLogon].
+  - destruct t; inversion E; subst; apply CEst_not_resend; first [apply ns_SLatent | apply ns_SLogout].
+  - unfold in_session_timeout in E. destruct t; inversion E; subst; apply CEst_not_resend;
+      first [apply ns_SInSession | intros x y z H; discriminate H].
+  - unfold in_session_timeout in E. destruct t; inversion E; subst; try exact Hce.
+    + rewrite (Hsend T_HEARTBEAT [] eq_refl). exact Hce.
+    + rewrite (Hsend T_TESTREQ _ eq_refl). exact Hce.
+  - destruct t; inversion E; subst; try exact Hce. apply CEst_not_resend, ns_SLatent.
+Qed.
+
+Lemma step_ce_aux : forall s e, RI s -> LB s -> CE s -> CEst (s_cfg s) (s_tgt (step s e)) (s_st (step s e)).
+Proof.
+  intros s e Hri0 Hlb0 Hce0. unfold step.
+  assert (Hri : RI (clear_logs s)) by exact Hri0. assert (Hlb : LB (clear_logs s)) by exact Hlb0.
+  assert (Hce : CE (clear_logs s)) by exact Hce0. change (s_cfg s) with (s_cfg (clear_logs s)).
+  set (c := clear_logs s) in *. clearbody c. clear Hri0 Hlb0 Hce0.
+  assert (Hnr : forall x, not_resend_st (s_st x) -> CEst (s_cfg c) (s_tgt x) (s_st x)) by (intros x Hx; apply CEst_not_resend; exact Hx).
+  destruct e; cbn [step_event].
+  - unfold connect. destruct (is_connected (s_st c)); [exact Hce|].
+    destruct (negb (initiator _)); apply Hnr; unfold set_state; rewrite s_st_set_state_with; apply ns_SLogon.
+  - destruct (_ && _); exact Hce.
+  - destruct (negb (s_in_open c)); [exact Hce|]. destruct (s_in_buf c) as [|m r]; [exact Hce|].
+    unfold incoming.
+    exact (incoming_with_ce drain (upd_chan c (s_out_open c) (s_in_open c) r (s_closed c)) m Hri Hlb Hce).
+  - apply incoming_with_ce; assumption.
+  - apply incoming_with_ce; assumption.
+  - destruct (is_connected (s_st c)); [|exact Hce].
+    apply Hnr. unfold set_state. rewrite s_st_set_state_with. apply ns_SLatent.
+  - destruct (state_timeout (s_st c) c e) as [s1 next] eqn:E. unfold set_state.
+    apply set_state_with_ce; [exact (same_cfg _ _ (fr_state_timeout c _ _ _ _ _ E (same_refl c)))|].
+    eapply state_timeout_ce; eassumption.
+  - destruct (queue_for_send_tgt c t [] body None ok) as [H1 H2]. rewrite H1.
+    eapply CEst_moved; [exact Hce | exact Hlb | exact H2].
+  - destruct (is_logged_on (s_st c)); [unfold send_queued; destruct (s_out_open c)|]; exact Hce.
+  - match goal with |- context [state_stop ?a ?b] => destruct (state_stop a b) as [s1 next] eqn:E end.
+    apply Hnr. unfold set_state. rewrite s_st_set_state_with. eapply state_stop_not_resend; exact E.
+  - destruct (is_connected (s_st c)); [|exact Hce].
+    destruct (drop_and_send_tgt c T_LOGON (logon_body c true) None) as [H1 H2].
+    unfold send_logon_in_reply_to. rewrite H1. eapply CEst_moved; [exact Hce | exact Hlb | exact H2].
+Qed.
+
+Lemma step_ce : forall s e, RI s -> LB s -> CE s -> CE (step s e).
+Proof. intros s e H1 H2 H3. unfold CE. rewrite (step_cfg (s_cfg s) s e eq_refl). apply step_ce_aux; assumption. Qed.
+
+Lemma init_ce c : CE (init_sess c).
+Proof. unfold CE, CEst, init_sess. cbn. exact I. Qed.
+
+Lemma run_trace_ce : forall es s, RI s -> LB s -> CE s -> Forall CE (run_trace es s).
+Proof.
+  induction es as [|e r IH]; intros s H1 H2 H3; cbn [run_trace]; [constructor|].
+  constructor; [apply step_ce; assumption | apply IH; [apply step_ri | apply step_lb | apply step_ce]; assumption].
+Qed.
+Theorem trace_ce : forall c es, Forall CE (run_trace es (init_sess c)).
+Proof. intros c es. apply run_trace_ce; [apply init_ri | apply init_lb | apply init_ce]. Qed.
+
+(* the GapFillFlag of a sequence-gated message: absent or N (resendState.FixMsgIn reads tag 123 of EVERY message) *)
+Definition no_gap_flag (m : minput) : Prop := mi_gapfill m = FAbsent \/ mi_gapfill m = FVal false.
+Definition c04_no_gap_flag (e : event) : Prop :=
+  match e with EIncoming m => gated_type (mi_type m) = true -> no_gap_flag m | _ => True end.
+
+Lemma rs_407 : forall s l0 ce re m n,
+  unwrap_pending (s_st s) = SResend (Some l0) ce re -> RI s -> (ce = 0 \/ s_tgt s <= ce) ->
+  hdr_ok (s_cfg s) m -> gated_type (mi_type m) = true -> mi_seq m = FVal n -> s_tgt s < n -> no_gap_flag m ->
+  resend_state_fix_msg_in s (Some l0) ce re m = (s, SResend (Some (stash_insert n m l0)) ce re).
+Proof.
+  intros s l0 ce re m n Hu Hri Hce Hh Hg Hseq Hlt Hgf.
+  unfold RI, RIst in Hri. rewrite Hu in Hri. destruct Hri as (Hre & _ & Hnk & _).
+  assert (Ei : in_session_fix_msg_in s m = (s, SResend (Some (stash_insert n m l0)) ce re)).
+  { rewrite (in_session_too_high s m n Hh Hseq Hlt) by (unfold type_ok; rewrite Hg; reflexivity).
+    cbn [process_reject]. rewrite Hu. reflexivity. }
+  unfold resend_state_fix_msg_in. rewrite Ei. cbn [is_logged_on negb shared_stash]. cbn [resend_drain].
+  rewrite (take_none_insert _ _ _ _ Hnk Hlt). cbn [negb].
+  assert (Hc1 : negb (ce =? 0) && (ce <? s_tgt s) && (s_tgt s <=? re) = false).
+  { destruct Hce as [->|Hle]; [reflexivity|]. replace (ce <? s_tgt s) with false by (symmetry; apply Z.ltb_ge; lia).
+    destruct (negb (ce =? 0)); reflexivity. }
+  rewrite Hc1.
+  replace (s_tgt s <=? re) with true by (symmetry; apply Z.leb_le; exact Hre).
+  destruct Hgf as [Hgf|Hgf]; rewrite Hgf; reflexivity.
+Qed.
+
+Lemma step_407 : forall s m n,
+  RI s -> CE s -> 0 <= c_chunk (s_cfg s) -> recovering (s_st s) ->
+  gated_type (mi_type m) = true -> msg_passes_header (s_cfg s) (s_tgt s) m = true -> mi_seq m = FVal n -> s_tgt s < n ->
+  no_gap_flag m ->
+  let s' := step s (EIncoming m) in
+  In n (keys (stash_of_st (s_st s'))) /\ s_tgt s' = s_tgt s /\ s_wire s' = [].
+Proof.
+  intros s m n Hri Hce Hch Hrec Hg Hp Hseq Hlt Hgf s'.
+  pose proof (passes_hdr_ok _ _ _ Hp) as Hh.
+  destruct Hrec as (stash & ce & re & Hu).
+  unfold CE, CEst in Hce. rewrite Hu in Hce. destruct Hce as [Hsome Hce]. specialize (Hce Hch).
+  destruct stash as [l0|]; [clear Hsome | exfalso; apply Hsome; reflexivity].
+  assert (Hrec : recovering (s_st s)) by (exists (Some l0), ce, re; exact Hu).
+  unfold s', step, step_event, incoming, incoming_with.
+  change (s_st (clear_logs s)) with (s_st s).
+  rewrite (recovering_connected _ Hrec). cbn [negb].
+  rewrite (state_fix_recovering _ (clear_logs s) m _ _ _ Hu).
+  rewrite (rs_407 (clear_logs s) l0 ce re m n Hu Hri Hce Hh Hg Hseq Hlt Hgf).
+  fold (set_state (clear_logs s) (SResend (Some (stash_insert n m l0)) ce re)).
+  rewrite (set_state_connected (clear_logs s) (SResend (Some (stash_insert n m l0)) ce re) eq_refl).
+  cbn [s_st upd_st]. split; [|split; reflexivity].
+  rewrite stash_of_resend. cbn [olist]. apply keys_in. exists m. apply stash_insert_in. left. reflexivity.
+Qed.
+
+Lemma sh_is_resend_recovering st : sh_is_resend (shape_of st) = true -> recovering st.
+Proof.
+  unfold sh_is_resend. rewrite shape_unwrap. intros H.
+  destruct (unwrap_pending st) as [| | | | | a b c | j] eqn:E; cbn in H; try discriminate. exists a, b, c. exact E.
+Qed.
+
+Lemma clause_407 : forall i s e, RI s -> CE s -> 0 <= c_chunk (s_cfg s) -> c04_no_gap_flag e ->
+  let c := s_cfg s in let prev := obs_of s in let o := obs_of (step s e) in
+  free_of [407]
+    (match e with
+     | EIncoming m =>
+         match mi_seq m with
+         | FVal n =>
+             if sh_is_resend (ob_st prev) && sh_logged_on (ob_st prev) && (ob_inbuf prev =? 0)
+                && gated_type (mi_type m) && msg_passes_header c (ob_tgt prev) m && (ob_tgt prev <? n)
+             then if existsb (Z.eqb n) (stash_keys (ob_st o)) && (ob_tgt o =? ob_tgt prev)
+                     && Nat.eqb (length (resend_requests (ob_wire o))) 0
+                  then [] else [(i, 407)]
+             else []
+         | _ => []
+         end
+     | _ => []
+     end) = true.
+Proof.
+  intros i s e Hri Hce Hch Hgf c prev o. unfold c, prev, o. clear c prev o.
+  destruct e as [| | |m| | | | | | |]; try reflexivity. cbn [c04_no_gap_flag] in Hgf.
+  destruct (mi_seq m) as [| |n] eqn:Eseq; try reflexivity.
+  match goal with |- free_of _ (if ?x then _ else _) = true => destruct x eqn:Hc; [|reflexivity] end.
+  apply andb_true_iff in Hc as [Hc Hlt]. apply andb_true_iff in Hc as [Hc Hp]. apply andb_true_iff in Hc as [Hc Hg].
+  apply andb_true_iff in Hc as [Hc _]. apply andb_true_iff in Hc as [Hr _].
+  change (ob_st (obs_of s)) with (shape_of (s_st s)) in Hr. change (ob_tgt (obs_of s)) with (s_tgt s) in *.
+  apply Z.ltb_lt in Hlt.
+  destruct (step_407 s m n Hri Hce Hch (sh_is_resend_recovering _ Hr) Hg Hp Eseq Hlt (Hgf Hg)) as (K1 & K2 & K3).
+  change (ob_st (obs_of (step s (EIncoming m)))) with (shape_of (s_st (step s (EIncoming m)))).
+  change (ob_tgt (obs_of (step s (EIncoming m)))) with (s_tgt (step s (EIncoming m))).
+  change (ob_wire (obs_of (step s (EIncoming m)))) with (rev (s_wire (step s (EIncoming m)))).
+  rewrite stash_keys_shape, K2, K3, Z.eqb_refl. apply existsb_eqb_in in K1. rewrite K1. reflexivity.
+Qed.
+
+Lemma c04_scan_407 : forall es s i kept, Boundary s -> RI s -> LB s -> CE s -> 0 <= c_chunk (s_cfg s) ->
+  Forall c04_no_gap_flag es ->
+  free_of [407] (c04_scan (s_cfg s) i kept (obs_of s) (combine es (map obs_of (run_trace es s)))) = true.
+Proof.
+  induction es as [|e r IH]; intros s i kept Hb Hri Hlb Hce Hch Hgf; cbn [run_trace map combine]; [reflexivity|].
+  inversion Hgf as [|? ? Hg Hgr]; subst.
+  cbn [c04_scan]. rewrite !free_of_app. repeat (apply andb_true_iff; split).
+  - free_rest.
+  - free_rest.
+  - free_rest.
+  - free_rest.
+  - free_rest.
+  - apply (clause_407 i s e); assumption.
+  - rewrite <- (step_cfg (s_cfg s) s e eq_refl) at 1.
+    apply IH; [apply step_boundary | apply step_ri | apply step_lb | apply step_ce | rewrite (step_cfg (s_cfg s) s e eq_refl) | ]; assumption.
+Qed.
+
+Theorem c04_early_message_kept_while_recovering : forall c es,
+  0 <= c_chunk c -> Forall c04_no_gap_flag es ->
+  free_of [407] (c04_check c (combine es (map obs_of (run_trace es (init_sess c))))) = true.
+Proof.
+  intros c es Hch Hgf. unfold c04_check.
+  apply (c04_scan_407 es (init_sess c)); [apply init_boundary | apply init_ri | apply init_lb | apply init_ce | exact Hch | exact Hgf].
+Qed.
+
+(* ---------- concrete instances for 407 ---------- *)
+Definition c04x_with_gapfill (m : minput) (g : fres bool) : minput :=
+  {| mi_type := mi_type m; mi_begin := mi_begin m; mi_sender := mi_sender m; mi_target := mi_target m; mi_seq := mi_seq m;
+     mi_possdup := mi_possdup m; mi_stime := mi_stime m; mi_otime := mi_otime m; mi_gapfill := g; mi_newseq := mi_newseq m;
+     mi_beginseq := mi_beginseq m; mi_endseq := mi_endseq m; mi_reset := mi_reset m; mi_hbint := mi_hbint m;
+     mi_testreq := mi_testreq m; mi_applver := mi_applver m; mi_route := mi_route m; mi_body := mi_body m; mi_app := mi_app m;
+     mi_valid := mi_valid m; mi_refuse := mi_refuse m |}.
+
+(* the hypotheses hold on a trace in which a second early message arrives while recovering (also after a gap on the Logon) *)
+Definition c04x_early_trace : list event :=
+  [EConnect; EIncoming (c04x_msg T_LOGON 5); EIncoming (c04x_msg (B "D") 10); EIncoming (c04x_msg (B "D") 12)].
+Lemma c04x_early_trace_no_gap_flag : Forall c04_no_gap_flag c04x_early_trace.
+Proof. unfold c04x_early_trace. repeat (first [apply Forall_cons | apply Forall_nil]); try exact I; intros _; left; reflexivity. Qed.
+Lemma c04x_early_trace_keeps :
+  map (fun o => (ob_st (snd o), ob_tgt (snd o))) (c04x_run (c04x_cfg 2) c04x_early_trace)
+  = [(ShLogon, 1); (ShResend true [] 2 4, 1); (ShResend true [10] 2 4, 1); (ShResend true [12; 10] 2 4, 1)].
+Proof. vm_compute. reflexivity. Qed.
+
+(* REFUTED without the hypotheses (all three are model traces on which clause 407 fires):
+   (a) an early application message with a malformed GapFillFlag: resendState.FixMsgIn reads tag 123 of every message and
+       handleStateError disconnects — the message is not kept;
+   (b) an early application message carrying GapFillFlag=Y when the expected number sits exactly at the current chunk end:
+       the next chunk is requested (a ResendRequest is written) although the gap fill exit is meant for SequenceResets;
+   (c) a negative ResendRequestChunkSize (nothing validates it): the current chunk end is below the expected number, and
+       every early message triggers another ResendRequest. *)
+Lemma c04_407_bad_gap_flag_refuted :
+  exists c es, 0 <= c_chunk c /\ c04_check c (combine es (map obs_of (run_trace es (init_sess c)))) = [(3%nat, 407)].
+Proof.
+  exists (c04x_cfg 0), [EConnect; EIncoming (c04x_msg T_LOGON 1); EIncoming (c04x_msg (B "D") 10);
+                        EIncoming (c04x_with_gapfill (c04x_msg (B "D") 12) FBad)].
+  split; [vm_compute; discriminate | vm_compute; reflexivity].
+Qed.
+Lemma c04_407_gap_flag_on_application_message_refuted :
+  exists c es, 0 <= c_chunk c /\ c04_check c (combine es (map obs_of (run_trace es (init_sess c)))) = [(4%nat, 407)].
+Proof.
+  exists (c04x_cfg 2), [EConnect; EIncoming (c04x_msg T_LOGON 1); EIncoming (c04x_msg (B "D") 10); EIncoming (c04x_msg T_HEARTBEAT 2);
+                        EIncoming (c04x_with_gapfill (c04x_msg (B "D") 12) (FVal true))].
+  split; [vm_compute; discriminate | vm_compute; reflexivity].
+Qed.
+Lemma c04_407_negative_chunk_size_refuted :
+  exists c es, Forall c04_no_gap_flag es /\ c04_check c (combine es (map obs_of (run_trace es (init_sess c)))) = [(3%nat, 407)].
+Proof.
+  exists (c04x_cfg (-3)), [EConnect; EIncoming (c04x_msg T_LOGON 1); EIncoming (c04x_msg (B "D") 10); EIncoming (c04x_msg (B "D") 12)].
+  split; [repeat (first [apply Forall_cons | apply Forall_nil]); try exact I; intros _; left; reflexivity | vm_compute; reflexivity].
+Qed.
